@@ -224,6 +224,8 @@ func NonSyncAllowed(enc *Encoder, size int64) bool {
 //@ func (enc *Encoder) stringLiteral(s string)
 //@   props C18:callsite,post,pre@call C01:callsite,post,pre@call
 //@   callsite Encoder.Literal(e *Encoder, size int64, sync *ContinuationRequest) requires size == int64(len(s)) && (e.side == ConnSideClient && sync == nil ==> NonSyncAllowed(e, size))
+//@   props C12:callsite
+//@   callsite[C12] NewContinuationRequest requires enc.err == nil
 //@   ensures !__called("Encoder.Literal") ==> enc.err != nil
 
 // isErrorWriter: the returned writer discards the payload.
